@@ -52,6 +52,9 @@ func runFile(path string) {
 
 func runPrompt() {
 	scanner := bufio.NewScanner(os.Stdin)
+	// The default token limit (64 KiB) makes Scan fail on a longer line, which
+	// silently ended the session.
+	scanner.Buffer(make([]byte, 0, 64*1024), 1<<30)
 	for {
 		fmt.Printf(">> ")
 		scanned := scanner.Scan()
